@@ -131,6 +131,9 @@ def get_scale_data(points: Array) -> InterpolatorScaleData:
     a scaling function such as that produced by build_sigmoidal_multicurve.  The onus is on the
     caller of this function to ensure they are the length expected by the target callee
     """
+    # Integer-valued points would give integer bounds, whose dtype differs from the (floating point)
+    # interpolated branch of the lax.switch in interpolate_linear / interpolate_sigmoidal
+    points = jnp.asarray(points, dtype=float)
     ranges = jnp.diff(points)
     lpoint = points[0]
     rpoint = points[-1]
